@@ -325,8 +325,11 @@ def _r3(ctx):
     half = []
     full = []
     roles = {}
+    from ..inline import inlined
     for name, defs in ci.methods.items():
         f = defs[-1]
+        if name.startswith("_handle_case"):
+            f = inlined(prog, f, skip=("_proceed_on_primary_branch", "_proceed_on_secondary_branch"))   # shared recording helper
         names = _unpack_names(f)
         if not names or len(names) < 10:
             continue
@@ -334,7 +337,11 @@ def _r3(ctx):
         for c in calls_in(f.node):
             if isinstance(c.func, ast.Attribute) and c.func.attr == "append" and isinstance(c.func.value, ast.Name) and \
                     c.func.value.id == names[8]:
+                if not isinstance(c.args[0], ast.Constant):
+                    continue                       # a shared helper that appends the flag it is given: judged where it is expanded
                 (half if const_value(c.args[0]) is False else full).append((f, c))
+    if not half:
+        raise AnalysisError("no handler that records a half hysteresis (closed=False) was found")
     if len(half) != 1:
         ctx.violated(D + "*", None, "%d handlers can record a half hysteresis; exactly one (Memory 3) may" % len(half), text="half handlers %d" % len(half))
         return
